@@ -88,6 +88,7 @@ def handle : List String → String
       | _, _ => "panic"
     | _, _, _, _, _, _ => "bad-op"
   | ["cost", _, _, _] => "cost"
+  | ["costf", _, _, _, _, _] => "cost"
   | ["zoo", _, _, _] => "zoo"      -- oracle-only stream (real provisioned server); nothing to model
   | _ => "bad-op"
 
